@@ -83,9 +83,12 @@ structure Fix where
   vardGuard : Bool := false
   /-- req_commit scans the whole put_lead_list for marked requests (findings/patches/C02-req_commit-numrecs-bound.diff) -/
   waitScan : Bool := false
+  /-- the dispatcher of ncmpi_fill_var_rec returns its own mode errors (NC_EINDEP in independent data mode) instead of
+      dropping them and running the collective fill (findings/patches/C14-fill_var_rec-return.diff) -/
+  fillMode : Bool := false
   deriving DecidableEq, Repr
 def Fix.none : Fix := {}
-def Fix.all : Fix := { zeroPath := true, vardGuard := true, waitScan := true }
+def Fix.all : Fix := { zeroPath := true, vardGuard := true, waitScan := true, fillMode := true }
 
 inductive Op where
   | putAll (f : Nat → PutIn)                       -- ncmpi_put_var{,1,a,s,m}*_all on a record variable
@@ -244,9 +247,11 @@ def step (fx : Fix) (w : World) : Op → Option World
   | .waitAll sel => stepWaitAll fx.waitScan w sel
   | .wait rk s => stepWait fx.waitScan w rk s
   | .fillRec rn =>
-      -- the dispatcher drops its NC_EINDEP when safe mode is off, so the mode is not looked at
-      let M := maxOver 0 (w.ranks.map fun r => rn r.id + 1)
-      some (recordWrites (raiseAll w M) (fun r => some (rn r.id + 1)))
+      -- before the repair the dispatcher dropped its NC_EINDEP when safe mode is off, so the mode was not looked at
+      if fx.fillMode && w.indep then some w
+      else
+        let M := maxOver 0 (w.ranks.map fun r => rn r.id + 1)
+        some (recordWrites (raiseAll w M) (fun r => some (rn r.id + 1)))
   | .beginIndep => some { w with indep := true }
   | .endIndep => some (endIndepCore w)
   | .sync => some (if w.indep then syncCore w else w)
